@@ -16,7 +16,9 @@ the call (`simplifyBoth`).  The in-place effect of *re*-simplifying an already s
 (the second `Simplify` calls inside `simplifyCallWithNoArguments` / `simplifyLambda`) is taken to be
 nil; the correspondence run checks this on every generated tree.
 
-`functions.ArgCount` is the parameter `argc`; every function of the table is non-variadic.
+`functions.ArgCount` is the parameter `argc`; `functions.IsVariadic` is folded into it by `argcOf` (a
+variadic function is entered with count 0, which makes the two guards that consult `IsVariadic` come
+out as written: Props/C22 `postCall_argcOf`, `canDrop_argcOf`).
 Fuel bounds the recursion depth (`Simplify` is called again on its own results, which is not
 structural); `none` = out of fuel, never a default.  `simplify` supplies `size + 1`, which suffices
 because every nested call is on a strictly smaller tree.
@@ -222,6 +224,31 @@ def canonVal : Val → Val
 /-- the function table of the harness as `SymbolArgCounts` -/
 def tableArgc (s : String) : Option Nat := (Builtin.ofName s).map Builtin.arity
 
+/-- `functions.IsVariadic` for the function table of the C22 run: the two variadic functions of the
+real table that the harness includes (`collection(pairs ...)`, `call(f, args ...)`) -/
+def variadicName (s : String) : Bool := s == "collection" || s == "call"
+
+/-- `functions.ArgCount` for the function table of the C22 run (`reflect` `NumIn() - 1`: the variadic
+slice counts as one parameter) -/
+def tableCount (s : String) : Option Nat :=
+  if s == "collection" then some 1 else if s == "call" then some 2 else tableArgc s
+
+/-- The model's `argc` for a `SymbolArgCounts` with variadic functions: a variadic function is entered
+with count 0.  `Simplify` consults `IsVariadic` in exactly two guards, and both then come out as in
+the Go code (`postCall_argcOf`, `canDrop_argcOf`): `simplifyCallWithNoArguments` rewrites `(f)` to `f`
+iff `ok && n > 0 && !v`; `canDropLambdaArgs` demands `n == len(call.Args)` (where `len ≥ 1`) and `!v`.
+Every other use of `ArgCount` only asks whether the symbol is known. -/
+def argcOf (count : String → Option Nat) (variadic : String → Bool) (s : String) : Option Nat :=
+  (count s).map (fun n => if variadic s then 0 else n)
+
+/-- the guard of `simplifyCallWithNoArguments` as written in shell.go -/
+def noargGuard (count : String → Option Nat) (variadic : String → Bool) (s : String) : Bool :=
+  match count s with
+  | some n => decide (n > 0) && !variadic s
+  | none => false
+
+def tableArgcV : String → Option Nat := argcOf tableCount variadicName
+
 end Simplify
 
 /-- `api.Simplify(e, functions)` -/
@@ -229,5 +256,9 @@ def simplifyWith (argc : String → Option Nat) (e : Expr) : Option Expr :=
   (Simplify.simplifyBoth argc (e.size + 1) e).map (·.1)
 
 def simplify (e : Expr) : Option Expr := simplifyWith Simplify.tableArgc e
+
+/-- `api.Simplify` with the function table of the C22 run, which has the variadic `collection` and
+`call`; on programs that do not mention them it is `simplify` -/
+def simplifyV (e : Expr) : Option Expr := simplifyWith Simplify.tableArgcV e
 
 end B6.Model
